@@ -221,6 +221,23 @@ func runRendezvousIO(_ *testing.T, c rzCase) error {
 		if derr != nil || !bytes.Equal(got, c.Poll) {
 			return fmt.Errorf("AMP rendezvous: the poll encoded in path %q decodes to %q (%v), expected the poll", clipS(p), clipS(string(got)), derr)
 		}
+		// the poll lives under the broker URL's own path: <broker path>amp/client/<poll>, directly or
+		// below the cache's /c[/s]/<broker host> prefix
+		direct := bu.ResolveReference(&url.URL{Path: "amp/client/" + p[i+len("amp/client/"):]})
+		if c.Cache == "" {
+			if req0.URL.Path != direct.Path {
+				return fmt.Errorf("AMP rendezvous for broker %q requests path %q, expected %q (the broker URL's path is kept)", c.Broker, clipS(req0.URL.Path), clipS(direct.Path))
+			}
+		} else {
+			want := "/c/"
+			if bu.Scheme == "https" {
+				want = "/c/s/"
+			}
+			want += bu.Host + direct.Path
+			if !strings.HasSuffix(req0.URL.Path, want) {
+				return fmt.Errorf("AMP rendezvous for broker %q through cache %q requests path %q, expected it to end in %q (broker host and path kept under the cache prefix)", c.Broker, c.Cache, clipS(req0.URL.Path), clipS(want))
+			}
+		}
 		if c.Cache != "" {
 			cu, _ := url.Parse(c.Cache)
 			if !strings.HasSuffix(req0.URL.Hostname(), "."+cu.Hostname()) {
